@@ -234,5 +234,4 @@ def run(rep: common.Report, tier: str, seed: int):
 
 
 def replay(data):
-    print('replay: rerun bin/check C18 quick with VERIF_SEED=%s' % data.get('seed'))
-    return 1
+    return common.replay_by_rerun('C18', data, run)
